@@ -225,3 +225,124 @@ RACE = Harness(
 )
 
 HARNESSES = [R, RACE]
+
+
+# ------------------------------------------------------------------------------ K-comp
+from typing import Optional  # noqa: E402
+
+from .ctree import RT, Env, NodeSpec, build_classes  # noqa: E402
+
+from asphalt.core import get_resource, get_resource_nowait, inject, resource, start_component  # noqa: E402
+
+COMP_APIS = ["get_resource_nowait(T, optional=True)", "get_resource_nowait(T)", "await get_resource(T, optional=True)", "await get_resource(T)",
+             "sync @inject function with Optional[T]", "async @inject function with T"]
+KT = RT[3]
+
+
+@inject
+def _inj_opt(*, r: Optional[KT] = resource("made")):
+    return r
+
+
+@inject
+async def _inj_async(*, r: KT = resource("made")):
+    return r
+
+
+def kcomp_params(tier):
+    return [P("first", 0, 5), P("second", 0, 5), P("node", 0, 1), P("phase", 0, 1), P("fasync", 0, 1)]
+
+
+@guard
+def kcomp_fn(a, tier):
+    first, second = pick(a["first"], 6), pick(a["second"], 6)
+    node, phase, fasync = pick(a["node"], 2), pick(a["phase"], 2), pick(a["fasync"], 2)
+    env = Env()
+    made = []
+    got = {}
+
+    def sfactory():
+        made.append(1)
+        return Val(f"made#{len(made)}")
+
+    async def afactory():
+        made.append(1)
+        await anyio.sleep(0)
+        return Val(f"made#{len(made)}")
+
+    async def lookup(api):
+        if api == 0:
+            return get_resource_nowait(KT, "made", optional=True)
+        if api == 1:
+            return get_resource_nowait(KT, "made")
+        if api == 2:
+            return await get_resource(KT, "made", optional=True)
+        if api == 3:
+            return await get_resource(KT, "made")
+        if api == 4:
+            return _inj_opt()
+        return await _inj_async()
+
+    def probe(env_, nd):
+        async def go():
+            for tag, api in (("first", first), ("second", second)):
+                try:
+                    got[tag] = await lookup(api)
+                except Exception as e:
+                    got[tag] = e
+
+        return go()
+
+    steps = [("call", probe)]
+    target = NodeSpec(node, -1 if node == 0 else 0, steps if phase == 0 else [], steps if phase == 1 else [])
+    nodes = [target] if node == 0 else [NodeSpec(0, -1, [], []), target]
+    classes = build_classes(env, nodes)
+
+    async def main():
+        async with Context() as ctx:
+            ctx.add_resource_factory(afactory if fasync else sfactory, "made", types=[KT])
+            await start_component(classes[0], {}, timeout=100)
+            got["after"] = await ctx.get_resource(KT, "made")
+            got["after_nowait"] = ctx.get_resource_nowait(KT, "made")
+
+    _, exc, _k = run(main)
+    summary = {"factory": "async" if fasync else "sync", "registered": "in the application context before start_component",
+               "lookups_inside": f"{['root', 'child'][node]}.{['prepare', 'start'][phase]}()", "first": COMP_APIS[first], "second": COMP_APIS[second]}
+    if exc is not None:
+        return FAIL(f"kcomp:raised:{type(exc).__name__}", repr(exc), summary)
+    vals = []
+    for tag, api in (("first", first), ("second", second)):
+        r = got[tag]
+        sync_api = api in (0, 1, 4)
+        if fasync and sync_api and not vals and not made:
+            if not isinstance(r, AsyncResourceError):
+                return FAIL(f"kcomp:async-factory-via-sync-api:{COMP_APIS[api]}", repr(r), summary)
+            continue
+        if isinstance(r, Exception) and not (fasync and sync_api and isinstance(r, AsyncResourceError) and not vals):
+            return FAIL(f"kcomp:lookup-failed:{COMP_APIS[api]}:{type(r).__name__}", repr(r), summary)
+        if isinstance(r, Val):
+            vals.append(r)
+        elif not isinstance(r, Exception):
+            return FAIL(f"kcomp:not-the-product:{COMP_APIS[api]}", repr(r), summary)
+    vals += [got["after"], got["after_nowait"]]
+    if any(v is not vals[0] for v in vals):
+        return FAIL(f"kcomp:different-objects:first={COMP_APIS[first]}:second={COMP_APIS[second]}", f"{got}", summary)
+    if len(made) != 1:
+        return FAIL(f"kcomp:factory-called-{len(made)}-times:first={COMP_APIS[first]}", f"{got}", summary)
+    return OK(summary, True)
+
+
+KCOMP = Harness(
+    prop="C04",
+    name="K-comp",
+    fn=kcomp_fn,
+    params=kcomp_params,
+    cube=lambda tier: 1,
+    title="a factory of the application context looked up from inside components through every API variant (ComponentContext wrappers)",
+    bound_text=lambda tier: "two consecutive lookups, each via {" + "; ".join(COMP_APIS) + "}, inside root/child prepare()/start(); sync / async factory",
+    oracle="one factory call; both lookups and later lookups in the application context return the same object (AsyncResourceError, nothing stored, "
+    "for sync APIs on the async factory before it was generated)",
+    outside="-",
+    stubs=STUBS_COMMON,
+)
+HARNESSES.append(KCOMP)
